@@ -167,6 +167,8 @@ where
 //@ pub closed spec fn at_fresh_line(&self) -> bool { is_fresh(term_run(self.writer.evs())) }
 //@ /// everything except editor and decoder is in place (state inside process_byte)
 //@ pub closed spec fn wf_inner(&self) -> bool { self.hist_wf() }
+//@ /// abstract state of the input decoder (C04)
+//@ pub closed spec fn dec_view(&self) -> DecState { self.input_generator.unwrap().view() }
 //@ /// the recorded lines (oldest first), the navigation position and the size of the history buffer
 //@ #[cfg(feature = "history")]
 //@ pub closed spec fn hist_entries(&self) -> Seq<Seq<u8>> { self.history.entries() }
@@ -291,6 +293,8 @@ where
 //@     // C14: a failed sink operation is never swallowed.  C15: whatever was written has been flushed
 //@     r is Ok ==> final(self).errs() == old(self).errs(),   // [C14]
 //@     r is Ok ==> (final(self).evs() == old(self).evs() || final(self).evs().len() > 0 && final(self).evs().last() is F),   // [C15]
+//@     // C04: decoding depends on the bytes only: whatever the sink does, the decoder has made exactly the abstract step
+//@     dec_good(old(self).dec_view(), b) ==> final(self).dec_view() == dec_step(old(self).dec_view(), b).0,   // [C04,~C14]
 //@     // C01: only a line terminator can invoke the handler, at most once, and only with the tokens of the line
 //@     (b != 0x0D && b != 0x0A) ==> final(processor).calls() == old(processor).calls(),   // [C01]
 //@     final(processor).calls() == old(processor).calls()
